@@ -15,7 +15,7 @@ def getImEntry (j : Json) : Option Int :=
 def getIm (j : Json) : Except String (List (Option Int)) := do
   return (← getArr j).map getImEntry
 
-def edgeJson (e : GEdge) : Json :=
+def edgeJson (e : CgEdge) : Json :=
   Json.arr #[intJson e.i, intJson e.j, ratJson e.surface, ratJson e.dist]
 
 def opCgCheck : Handler := fun j => do
@@ -24,7 +24,7 @@ def opCgCheck : Handler := fun j => do
 
 def opToGraph : Handler := fun j => do
   let g ← getShape (← field j "shape")
-  let gr := gridToGraph g (← getRat (← field j "h")) (← getIntList (← field j "envs"))
+  let gr := cgGridToGraph g (← getRat (← field j "h")) (← getIntList (← field j "envs"))
   return Json.mkObj [("ok", Json.mkObj [("vols", ratListJson gr.vols), ("envs", intListJson gr.envs),
     ("edges", Json.arr (gr.edges.map edgeJson).toArray)])]
 
